@@ -101,6 +101,8 @@ class C14(F.Spec):
             yield self.gen_keep(rng, i)
         for i in range(80 if tier == "quick" else 800):
             yield self.gen_names(rng, i)
+        for i in range(8 if tier == "quick" else 40):
+            yield self.gen_empty_combo(rng, i)
 
     def gen(self, rng, i):
         o = self.offsets()
@@ -123,6 +125,10 @@ class C14(F.Spec):
             ln = rng.choice([0, 1, size - 2, size - 1, size, size + 1, 2 * size, rng.randint(0, 3 * size)])
             raw = bytes(rng.choice(b"abcdefghijklmnopqrstuvwxyz0123456789 .@-_!/:") for _ in range(ln))
             fields.append((nme.encode(), enc(rng, raw)))
+        if rng.random() < .4:
+            # the account password next to the others: submitted with a value or empty (an empty Wi-Fi password next to a new account
+            # password is the combination where each has to be looked at on its own)
+            fields.append((b"pwd", rng.choice([b"", b"", bytes(rng.choice(b"ABCDEFGHJKLMNPQRSTUVWXYZ23456789") for _ in range(rng.randint(1, 20)))])))
         nums = [(b"prt", rng.choice([b"0", b"1", b"65535", b"65536", b"8883", b"-1", b"70000", b"4294967297", b"12ab", b""])),
                 (b"qos", rng.choice([b"0", b"1", b"2", b"3", b"9", b"x", b""])),
                 (b"tm0", rng.choice([b"-1", b"0", b"100", b"101", b"-2", b"255", b"127", b"128", b"50", b"-", b"1000"])),
@@ -166,6 +172,27 @@ class C14(F.Spec):
         meta = {"shape": shape, "fields": [(k.decode(), v.hex()) for k, v in fields], "req": req.hex(), "body_off": len(req) - len(body),
                 "tags": ["shape:" + shape] + ["f:" + k.decode() for k, _ in fields]}
         return F.Case("gen%d-%s" % (i, shape), ops, meta)
+
+    def gen_empty_combo(self, rng, i):
+        """a well-formed form in which one of the two passwords is submitted empty and the other with a new value (and the request
+        ends in an escaped character): each empty password keeps its previous value on its own"""
+        o = self.offsets()
+        ops = []
+        for k, v in (("ssid", b"oldnet"), ("wpwd", b"oldwifipass"), ("server", b"old.example"), ("email", b"old@example.org"), ("pwd", b"oldaccountpw")):
+            ops.append("set %d %s" % (o[k], (v + b"\0" * (o[k + ".n"] - len(v))).hex()))
+        ops.append("stack %02x" % rng.choice([0, 0xa5]))
+        wifi_empty = i % 2 == 0
+        tail = [b"a%40b.pl", b"q%40r.s%21", b"x%2Fy%40z.or%67"][i % 3]        # (two of three end in an escape)
+        fields = [(b"sid", b"net%d" % i), (b"svr", b"s.example"), (b"wpw", b"" if wifi_empty else b"newwifi%d" % i),
+                  (b"pwd", b"newaccount%d" % i if wifi_empty else b""), (b"pro", b"0"), (b"led", b"1")]
+        rng.shuffle(fields)
+        fields.append((b"eml", tail))          # the last field of the body ends in an escape
+        body = b"&".join(k + b"=" + v for k, v in fields)
+        req = b"POST / HTTP/1.1\r\nHost: 192.168.4.1\r\n\r\n" + body
+        ops += ["formlog 1", "conn", "show", "seg " + req.hex(), "show"]
+        meta = {"shape": "form", "fields": [(k.decode(), v.hex()) for k, v in fields], "req": req.hex(), "body_off": len(req) - len(body),
+                "tags": ["shape:form", "empty-combo"] + ["f:" + k.decode() for k, _ in fields]}
+        return F.Case("combo%d" % i, ops, meta)
 
     def table_names(self):
         if not hasattr(self, "_names"):
@@ -379,7 +406,7 @@ class C14(F.Spec):
                 fl = me.get("fields", [])
                 for j, (k, vh) in enumerate(fl):
                     # a text value that fits its field, followed by another field: stored = URL-decoded value
-                    if k in TEXT and names.count(k) == 1 and j < len(fl) - 1:
+                    if k in TEXT and names.count(k) == 1 and (j < len(fl) - 1 or "empty-combo" in me.get("tags", [])):
                         d = url_decode(bytes.fromhex(vh))
                         if d is None or b"\0" in d or len(d) >= o[TEXT[k] + ".n"] - 1 or (k == "wpw" and d == b""):
                             continue
